@@ -22,9 +22,9 @@ func init() {
 		Explanation: "Roles: the indices are the int fields of the ring (also inside a struct it holds by value) that Read resp. Write advance; a parameter of a private helper to which every call passes len(buf) stands for len(buf). " +
 			"R1: every advance of the read index (in the methods of the ring and in the private helpers they call; a call of a private helper that only does the index arithmetic counts as the advance where it is called; index -= len(buf) is the same slot and no advance) is preceded on all paths by a zero-value store (direct, via SliceFill with the zero value, or via a helper that always does one of these) into the backing array or a sub-slice of it, so consumed slots do not keep references. " +
 			"R2: every non-reset store to the read or write index stores a value that is known to be a valid slot - taken modulo len(buf); guarded by value < len(buf) (or != len(buf)); a phi/helper result each alternative of which is 0 or so guarded; a count clamped to Len(); or (index + count clamped to Len()) - len(buf) on the >= len(buf) branch - or is proved to lie in [0, len(buf)-1] by symbolic linear bounds (atoms len(buf), the indices on entry in [0, len(buf)-1], Len() in [0, len(buf)-1], copy() <= len(src); one evaluation per choice of phi edges with the branch facts of the chosen edges; all choices must succeed) - or is followed, before the exit or the next use of that index, by the comparison of the updated index with len(buf) whose at-or-behind-the-end edge (true edge of ==, >=; false edge of !=, <) resets it to 0, or subtracts len(buf) from it when the advanced index is proved to be below 2*len(buf). A store of 0 to one index alone must sit on such an edge (reported when it does not). " +
-			"R3: the store in Write is dominated by the not-full edge of Len()==Cap() and the full edge returns an error wrapping ErrExhausted; the load in Read is dominated by the not-empty edge (Len() != 0, or read index != write index) and the empty edge returns io.EOF; every load in At is dominated by the in-range edges of idx<0 || idx>=Len() and the out-of-range edge panics. " +
+			"R3: the store in Write is dominated by the not-full edge of Len()==Cap() - or of next(write index)==read index, next(w) being a value proved to be a valid slot equal to w+1 or w+1-len(buf): with one slot kept empty (Cap()=len(buf)-1, Len()=(w-r) mod len(buf)) the two tests are the same - and the full edge returns an error wrapping ErrExhausted; the load in Read is dominated by the not-empty edge (Len() != 0, or read index != write index) and the empty edge returns io.EOF; every load in At is dominated by the in-range edges of idx<0 || idx>=Len() and the out-of-range edge panics. " +
 			"R4: the constructor allocates size+1 slots and Cap() returns len(buf)-1. " +
-			"R6: the count a caller passes to Skip is clamped to Len(), len(buf) or another quantity of the buffer state that cannot exceed len(buf) (guard or phi over the clamped edge) before it is added to an index; the parameters of a private helper count as requests unless every call passes a count that is already clamped or was not a request. " +
+			"R6: the count a caller passes to Skip is clamped to Len(), len(buf) or another quantity of the buffer state that cannot exceed len(buf) (guard or phi over the clamped edge) before it is added to an index; the parameters of a private helper count as requests unless every call passes a count that is already clamped or was not a request (the obligation is then recorded at those calls). " +
 			"R5: where At folds read index + i back into the array, the fold (subtract len(buf), as an offset variable, a re-assigned position or a separate load) is selected by the test >= len(buf), or is the remainder modulo len(buf): slot len(buf) does not exist; other spellings (two-segment views, an offset len(buf)-r, a slot helper) are located symbolically: a load at read index + idx - len(buf) must sit behind a test that says exactly read index + idx - len(buf) >= 0. R7: a readable segment whose end is chosen by the order of read and write index (by the value of its upper bound, or by a branch on the order of the indices that selects the segment up to the end of the array) is taken only behind a test that the indices differ (Len() > 0, r != w, r < w, r > w, also made by a boolean or classifying helper) that holds from the entry and from every advance of the read index; buf[r:w] alone is the empty segment when the ring is empty. R8: helpers the buffer hands parts of its backing array to re-slice them with a constant bound only behind a test that the part is that long. R9: where the position of an access into the backing array (a segment bound, an element index) both uses an index by value and is chosen among alternatives by a test that reads the same index (up to the write index or to the end of the array; clamp at the end of the array; fold by len(buf)), the test and the position read the same value of that index: no write to the index (direct, in a callee, through a function value) separates the read the test was made on from the access unless it separates the by-value read as well; counts planned from an earlier state and loop-carried variables are not positions and are not followed.",
 		NotDecided: "FIFO order, the min(requested, Len) arithmetic of ReadN/Skip, the Len() formula: value statements. This is the thinnest claim of the twenty.",
 	})
@@ -884,7 +884,8 @@ func runC14(c *Ctx) {
 				if capCall(cm.X) && lenCall(cm.Y) {
 					return cm.Op == token.NEQ || cm.Op == token.GTR
 				}
-				return false
+				// not full, spelled with the indices: next(write index) != read index (v_ring_lin.go)
+				return cm.Op == token.NEQ && k.nextOfWriteIsReadV(write, cm)
 			})
 			c.Decide("C14.R3", write, "Write stores under the not-full guard", st, ok, "the store of Write is not dominated by the Len()==Cap() test: a full buffer is overwritten (or an element is refused while there is room)")
 		}
@@ -898,7 +899,8 @@ func runC14(c *Ctx) {
 			n++
 			okCls := wrapsGlobal(ev, "ErrExhausted")
 			okEdge := factsHave(k.expandFacts(ep.Facts(), 0), func(cm ir.Cmp) bool {
-				return (lenCall(cm.X) && capCall(cm.Y) || capCall(cm.X) && lenCall(cm.Y)) && (cm.Op == token.EQL || cm.Op == token.GEQ || cm.Op == token.LEQ)
+				return (lenCall(cm.X) && capCall(cm.Y) || capCall(cm.X) && lenCall(cm.Y)) && (cm.Op == token.EQL || cm.Op == token.GEQ || cm.Op == token.LEQ) ||
+					cm.Op == token.EQL && k.nextOfWriteIsReadV(write, cm)
 			})
 			c.Decide("C14.R3", write, "full -> ErrExhausted", ep.Ret, okCls && okEdge, "the failure exit of Write is not the Len()==Cap() edge returning an error that wraps ErrExhausted")
 		}
@@ -1139,6 +1141,9 @@ func runC14(c *Ctx) {
 			continue // a function literal: its parameters are not a caller's request
 		}
 		for _, prm := range intParams(fn) {
+			if fn != at && internalCount(fn, prm) {
+				k.requestsClampedAtCallsV(fn, prm, at, derivedOf, mkBounded, intParams, isLenBuf) // v_ring_r6.go
+			}
 			if fn == at || internalCount(fn, prm) {
 				continue
 			}
